@@ -1,0 +1,91 @@
+//go:build verif
+
+package store
+
+// Machine-checked contracts for this package (comment-only; read by the gsv
+// verification-condition generator under /verif). Guarded by the build tag
+// `verif`, so no ordinary build ever sees this file.
+
+// ---------------------------------------------------------------------------
+// Layer A (DESIGN.md §3, §4 C01/C13): every store operation refines the map
+// operation. Abstract state: index entries (s.index.$Ein/$Eblk), readable
+// primary records (s.index.Primary.$Rin/$Rkey/$Rval), freelist multiset
+// (s.freelist.$F). view(k) = the value of the record k's entry points to.
+
+//@ define Ein(s) = s.index.$Ein
+//@ define Eblk(s) = s.index.$Eblk
+//@ define Rin(s) = s.index.Primary.$Rin
+//@ define Rkey(s) = s.index.Primary.$Rkey
+//@ define Rval(s) = s.index.Primary.$Rval
+//@ define FL(s) = s.freelist.$F
+//@ define Rused(s) = s.index.Primary.$Rused
+//@ define has(s, k) = Ein(s)[k] && Rin(s)[Eblk(s)[k]]
+//@ define val(s, k) = Rval(s)[Eblk(s)[k]]
+// Store invariant: (1) a readable record named by the entry of k carries key k;
+// (2) distinct entries name distinct locations; (3) no entry names a freed location;
+// (4) every readable record carries a well-formed key; (5) entries name locations the
+// primary has handed out; (6) freed and readable locations have been handed out.
+//@ define SI1(s) = forall k Bytes :: Ein(s)[k] && Rin(s)[Eblk(s)[k]] ==> ikey(Rkey(s)[Eblk(s)[k]]) == k
+//@ define SI2(s) = forall k1 Bytes, k2 Bytes :: Ein(s)[k1] && Ein(s)[k2] && k1 != k2 ==> Eblk(s)[k1] != Eblk(s)[k2]
+//@ define SI3(s) = forall k Bytes :: Ein(s)[k] ==> FL(s)[Eblk(s)[k]] == 0
+//@ define SI4(s) = forall b int :: Rin(s)[b] ==> wfkey(Rkey(s)[b])
+//@ define SI5(s) = forall k Bytes :: Ein(s)[k] ==> Rused(s)[Eblk(s)[k]]
+//@ define SI6(s) = forall b int :: FL(s)[b] != 0 || Rin(s)[b] ==> Rused(s)[b]
+//@ define SI(s) = SI1(s) && SI2(s) && SI3(s) && SI4(s) && SI5(s) && SI6(s)
+//@ define sameview(s) = forall k Bytes :: has(s, k) == old(has(s, k)) && (has(s, k) ==> val(s, k) == old(val(s, k)))
+
+//@ func (s *Store) getPrimaryKeyData(blk types.Block, indexKey []byte) (k []byte, v []byte, err error)  property C01
+//@   requires SI(s)
+//@   requires ihit(Ein(s), Eblk(s), bytes(indexKey)) && keyof(blk) == Eblk(s)[ires(Ein(s), Eblk(s), bytes(indexKey))]
+//@   modifies s.index.$Ein
+//@   ensures @match err == nil && k != nil ==> Rin(s)[keyof(blk)] && ikey(Rkey(s)[keyof(blk)]) == bytes(indexKey) && bytes(v) == Rval(s)[keyof(blk)] && bytes(k) == bytes(indexKey)
+//@   ensures @match-unchanged err == nil && k != nil ==> Ein(s) == old(Ein(s))
+//@   ensures @nomatch err == nil && k == nil ==> !old(has(s, bytes(indexKey))) && !Ein(s)[bytes(indexKey)]
+//@   ensures @view sameview(s)
+//@   ensures @inv SI(s)
+//@   ensures @present-kept err == nil && k != nil ==> Ein(s)[bytes(indexKey)] && Eblk(s)[bytes(indexKey)] == keyof(blk)
+
+//@ func (s *Store) Get(key []byte) (value []byte, found bool, err error)  property C01
+//@   requires SI(s)
+//@   modifies s.index.$Ein
+//@   ensures @found err == nil ==> found == old(has(s, ikey(bytes(key))))
+//@   ensures @value err == nil && found ==> bytes(value) == old(val(s, ikey(bytes(key))))
+//@   ensures @view sameview(s)
+//@   ensures @inv SI(s)
+
+//@ func (s *Store) flushTick()
+//@   modifies s.flushNotice
+
+//@ func (s *Store) Put(key []byte, value []byte) (err error)  property C01 C13
+//@   define IK() = ikey(bytes(key))
+//@   requires SI(s)
+//@   requires wfkey(bytes(key))
+//@   modifies s.index.$Ein, s.index.$Eblk, s.index.Primary.$Rin, s.index.Primary.$Rkey, s.index.Primary.$Rval, s.index.Primary.$Rused, s.freelist.$F, s.flushNotice
+//@   ensures @put err == nil ==> has(s, IK()) && val(s, IK()) == bytes(value)
+//@   ensures @others forall k Bytes :: k != IK() ==> has(s, k) == old(has(s, k)) && (has(s, k) ==> val(s, k) == old(val(s, k)))
+//@   ensures @err-view err != nil ==> sameview(s)
+//@   ensures @inv SI(s)
+//@   ensures @immutable s.immutable && old(has(s, IK())) ==> err != nil && FL(s) == old(FL(s))
+//@   ensures @same-noop err == nil && old(has(s, IK())) && old(val(s, IK())) == bytes(value) ==> Ein(s) == old(Ein(s)) && Eblk(s) == old(Eblk(s)) && Rin(s) == old(Rin(s))
+//@   ensures @freed-overwrite {C13} err == nil && old(has(s, IK())) && old(val(s, IK())) != bytes(value) ==> FL(s) == old(FL(s))[old(Eblk(s)[IK()]) := old(FL(s))[old(Eblk(s)[IK()])] + 1]
+//@   ensures @freed-none {C13} err != nil || !old(has(s, IK())) || old(val(s, IK())) == bytes(value) ==> FL(s) == old(FL(s))
+
+//@ func (s *Store) Remove(key []byte) (removed bool, err error)  property C01 C13
+//@   define IK() = ikey(bytes(key))
+//@   requires SI(s)
+//@   modifies s.index.$Ein, s.freelist.$F, s.flushNotice
+//@   ensures @result err == nil ==> removed == old(has(s, IK()))
+//@   ensures @gone err == nil ==> !has(s, IK())
+//@   ensures @others forall k Bytes :: k != IK() ==> has(s, k) == old(has(s, k)) && (has(s, k) ==> val(s, k) == old(val(s, k)))
+//@   ensures @err-view err != nil ==> sameview(s) && !removed
+//@   ensures @inv SI(s)
+//@   ensures @freed {C13} err == nil && removed ==> FL(s) == old(FL(s))[old(Eblk(s)[IK()]) := old(FL(s))[old(Eblk(s)[IK()])] + 1]
+//@   ensures @freed-none {C13} err != nil || !removed ==> FL(s) == old(FL(s))
+
+//@ func (s *Store) Has(key []byte) (found bool, err error)  property C01
+//@   requires SI(s)
+//@   ensures @result err == nil ==> found == has(s, ikey(bytes(key)))
+
+//@ func (s *Store) GetSize(key []byte) (size types.Size, found bool, err error)  property C01 C15
+//@   requires SI(s)
+//@   ensures @found err == nil ==> found == has(s, ikey(bytes(key)))
